@@ -89,6 +89,10 @@ pub fn run_case(rep: &mut Report, case: &Case, verbose: bool) {
     other.body.gm_priority1 = 200;
     let mut unacceptable = Remote::new(0x30, 1);
     unacceptable.body.gm_priority1 = 1;
+    // another port of the parent's own clock (same grandmaster, loses the tie-break on its port number):
+    // an acceptable sender, but not the parent
+    let mut sibling = Remote::new(0x10, 2);
+    sibling.body.gm_priority1 = 10;
     let const_path_len = if case.family == 4 { [0usize, 1, 100, 117, 118, 119, 120, 127, 128, 129, 200][(case.seed % 11) as usize] } else { (case.seed % 6) as usize };
     let path_entry = |i: usize| [0xa0u8, 0, 0, 0xee, (i >> 8) as u8, i as u8, 1, 1];
     for _ in 0..2 {
@@ -162,7 +166,8 @@ pub fn run_case(rep: &mut Report, case: &Case, verbose: bool) {
         if what < 2 || step == 0 {
             // ---------------- an Announce arrives on the slave port
             let sender = match rng.gen_range(0..10) {
-                0..=6 => 0,
+                0..=5 => 0,
+                6 => 3,
                 7 | 8 => 1,
                 _ => 2,
             };
@@ -223,6 +228,7 @@ pub fn run_case(rep: &mut Report, case: &Case, verbose: bool) {
             let r = match sender {
                 0 => &mut parent,
                 1 => &mut other,
+                3 => &mut sibling,
                 _ => &mut unacceptable,
             };
             let mut m = r.next_announce();
@@ -243,7 +249,7 @@ pub fn run_case(rep: &mut Report, case: &Case, verbose: bool) {
                 continue;
             }
             rep.ev("announce_delivered");
-            rep.ev(["announce_from_parent", "announce_from_other_master", "announce_from_unacceptable"][sender]);
+            rep.ev(["announce_from_parent", "announce_from_other_master", "announce_from_unacceptable", "announce_from_parent_clock_other_port"][sender]);
             let mut forwarded: Vec<String> = vec![];
             let n_acts = acts.len();
             for a in acts {
